@@ -524,6 +524,18 @@ def c18_cases():
     items2 = ['skip(" +", priority = 3)', 'utf8 = false', 'extras = u8', 'crate = logos']
     cases.append(('logos-items-group-first', [f'#[logos({", ".join(p)})]\nenum Tok {{ #[token("zz")] Z }}'
                                               for p in itertools.permutations(items2)]))
+    # subpatterns whose acceptance depends on the lexer's mode, in every position relative to `utf8 = ...`
+    items3 = ['utf8 = false', 'subpattern hi = b"[\\x80-\\xFF]"', 'subpattern two = b"(?&hi)(?&hi)"', 'skip(b"\\xFE+")', 'extras = u8']
+    cases.append(('logos-items-bytes-sub', [
+        f'#[logos({", ".join(p)})]\nenum Tok {{ #[regex(b"x(?&two)")] A, #[regex("(?&hi)")] H, #[token("zz")] Z }}'
+        for p in itertools.permutations(items3) if p.index(items3[1]) < p.index(items3[2])]))
+    items4 = ['utf8 = true', 'subpattern hi = b"[\\x80-\\xFF]"', 'extras = u8']
+    cases.append(('logos-items-str-badsub', [f'#[logos({", ".join(p)})]\nenum Tok {{ #[regex("x(?&hi)")] A, #[token("zz")] Z }}'
+                                             for p in itertools.permutations(items4)]))
+    items5 = ['utf8 = false', 'subpattern any = "."', 'subpattern nl = b"[^\\n]"', 'skip("(?&any) ")']
+    cases.append(('logos-items-mode-sub', [f'#[logos({", ".join(p)})]\nenum Tok {{ #[regex(b"<(?&nl)>")] A, #[token("zz")] Z }}'
+                                           for p in itertools.permutations(items5)
+                                           if p.index(items5[1]) < p.index(items5[3])]))
     return cases
 
 
